@@ -31,6 +31,11 @@ impl DailyMutations {
     }
 
     pub fn set_need_update(&mut self, room: Uid, entity: &String, mut_date: i64) {
+        //a date that the calendar cannot hold (only possible in data received from a peer) is not marked:
+        //this runs on the writer thread, which must not panic
+        if !crate::date_utils::is_valid_date(mut_date) {
+            return;
+        }
         let room_entry = self.room_dates.entry(room).or_default();
         let entity_entry = room_entry.entry(entity.to_owned()).or_default();
         entity_entry.insert(date(mut_date));
